@@ -34,7 +34,7 @@ ASSUMPTIONS = [
 ALL_TYPES = sorted(set(ALL_IN_TYPES) | {f"OUT:{t}" for t in OUT_TYPES} | {"MOVE:fee", "MOVE:no-fee", "MOVE:self"})
 SETTINGS: Dict[str, Dict[str, Any]] = {
     "quick": {"cases": 3000, "cli_cases": 64, "budget_s": 45, "minimums": {"corpus_runs": 100, "window_runs": 1000, "events_checked": 8000, "nontrivial": 500, "cli_runs": 6, "cli_sheets_with_a_row_repeated_verbatim": 8}, "required_tags": {"tag_types": ALL_TYPES}},
-    "thorough": {"cases": 100000, "cli_cases": 200, "budget_s": 300, "minimums": {"corpus_runs": 100, "events_checked": 300000, "nontrivial": 20000, "cli_runs": 100, "cli_sheets_with_a_row_repeated_verbatim": 20}, "required_tags": {"tag_types": ALL_TYPES}},
+    "thorough": {"cases": 100000, "cli_cases": 200, "budget_s": 300, "minimums": {"corpus_runs": 100, "events_checked": 180000, "nontrivial": 12000, "cli_runs": 60, "cli_sheets_with_a_row_repeated_verbatim": 12}, "required_tags": {"tag_types": ALL_TYPES}},
 }
 
 PROFILES = [
